@@ -598,11 +598,11 @@ fn decoder_init(rep: &mut Report, rng: &mut Rng) {
 }
 
 pub fn run(ctx: &Ctx, rep: &mut Report) {
-    let n_c = ctx.n(10_000, 200_000);
-    let n_det = ctx.n(1500, 20_000);
-    let n_capi = ctx.n(1500, 20_000);
-    let n_inf = ctx.n(10_000, 200_000);
-    let n_dec = ctx.n(8000, 120_000);
+    let n_c = ctx.n(40_000, 1_600_000);
+    let n_det = ctx.n(6000, 160_000);
+    let n_capi = ctx.n(6000, 160_000);
+    let n_inf = ctx.n(40_000, 1_600_000);
+    let n_dec = ctx.n(32_000, 960_000);
     for k in ctx.cases(n_c + n_det + n_capi + n_inf + n_dec) {
         rep.cur_case = k;
         crate::ctx::begin_case(k);
